@@ -4,6 +4,7 @@ import (
 	"fmt"
 	"net/http"
 	"strconv"
+	"strings"
 	"time"
 
 	"github.com/prometheus/client_golang/prometheus"
@@ -62,14 +63,20 @@ func (pm *Metrics) Register(r prometheus.Registerer) error {
 
 // Observe metrics given a vegeta.Result.
 func (pm *Metrics) Observe(res *vegeta.Result) {
+	// Label values must be valid UTF-8 or the client library panics. A target
+	// URL with a raw byte in it, or a status line sent by the server, need not
+	// be: such bytes are replaced by the Unicode replacement character.
+	method, url := label(res.Method), label(res.URL)
 	code := strconv.FormatUint(uint64(res.Code), 10)
-	pm.requestBytesInCounter.WithLabelValues(res.Method, res.URL, code).Add(float64(res.BytesIn))
-	pm.requestBytesOutCounter.WithLabelValues(res.Method, res.URL, code).Add(float64(res.BytesOut))
-	pm.requestLatencyHistogram.WithLabelValues(res.Method, res.URL, code).Observe(res.Latency.Seconds())
+	pm.requestBytesInCounter.WithLabelValues(method, url, code).Add(float64(res.BytesIn))
+	pm.requestBytesOutCounter.WithLabelValues(method, url, code).Add(float64(res.BytesOut))
+	pm.requestLatencyHistogram.WithLabelValues(method, url, code).Observe(res.Latency.Seconds())
 	if res.Error != "" {
-		pm.requestFailCounter.WithLabelValues(res.Method, res.URL, code, res.Error).Inc()
+		pm.requestFailCounter.WithLabelValues(method, url, code, label(res.Error)).Inc()
 	}
 }
+
+func label(s string) string { return strings.ToValidUTF8(s, "\uFFFD") }
 
 // NewHandler returns a new http.Handler that exposes Prometheus
 // metrics registed in r in the OpenMetrics format.
